@@ -3,6 +3,7 @@
    the tables are translated from key.go on every run (gen/GenKeys.v).  [u : uni] is the package
    unicode as an oracle: every theorem holds for every oracle satisfying the stated hypotheses. *)
 From Vx Require Import base.Prelude gen.GenKeys model.Keys proofs.KeysProofs.
+From Vx Require Import model.ParserTypes model.Parser model.KeysStream proofs.KeysStreamProofs.
 Local Open Scope Z_scope.
 
 (* ---------- matching ---------- *)
@@ -160,6 +161,83 @@ Theorem C09_cross_protocol_shift_noalt_refuted :
 Proof. exact cross_shift_noalt_refuted. Qed.
 Print Assumptions C09_cross_protocol_shift_noalt_refuted.
 
+(* ---------- one long-lived parser instance: a report decodes the same after any history ---------- *)
+(* model/KeysStream.v composes decodeKey with the model of ansi/parser.go (model/Parser.v, interpreting
+   the tables translated from parser.go on every run).  [report]: a typed character, a control byte,
+   ESC c (including ESC \, Alt+\), SS3 c, any complete CSI (key report in the legacy or the kitty
+   encoding, or a terminal reply such as DA1, DECRPM, CPR, the kitty flags answer), an OSC reply
+   terminated by BEL or by ST.  [clean_b]: the parser is in ground, ST suppression off, no pending exit
+   action, no collected OSC payload.
+
+   From ANY clean parser state, i.e. whatever went through the same instance before, a report
+   delivers exactly what it delivers on its own ([report_items]: one sequence, with exactly its
+   intermediates, decoded parameters, final or payload) and leaves the parser clean again: no parser
+   state survives from one report to the next. *)
+Theorem C09_report_from_any_clean_state : forall (p : pst) (r : report),
+  clean_b p = true -> report_ok r = true ->
+  exists p', feed p (report_wire r) = (p', report_items r, true) /\ clean_b p' = true.
+Proof. exact report_from_clean_b. Qed.
+Print Assumptions C09_report_from_any_clean_state.
+
+(* Hence the event stream (delivered sequence, decoded Key) of any history of reports is the
+   concatenation of what each report yields when it is the only input of a fresh parser. *)
+Theorem C09_stream_history_independent : forall (u : uni) (p : pst) (rs : list report),
+  clean_b p = true -> Forall (fun r => report_ok r = true) rs ->
+  run_events u p (flat_map report_wire rs) = flat_map (fun r => run_events u pinit (report_wire r)) rs.
+Proof. exact stream_history_independent_b. Qed.
+Print Assumptions C09_stream_history_independent.
+
+(* Bridge from bytes to the sequences the decode theorems are stated on: the wire form of a sequence
+   ([kseq_wire]: the character, the control byte, ESC c, ESC O c, ESC [ n:s:b;m:e;t... F with the
+   numbers in decimal) is delivered as exactly that sequence, once, after any history; so
+   C09_decode_* and C09_decode_predicate_holds say what the BYTES decode to, whatever was typed or
+   answered before. *)
+Theorem C09_key_after_history : forall (u : uni) (p : pst) (hist : list report) (s : kseq) (w : list Z),
+  clean_b p = true -> Forall (fun r => report_ok r = true) hist -> kseq_wire s = Some w ->
+  run_events u p (flat_map report_wire hist ++ w) =
+  run_events u p (flat_map report_wire hist) ++ [(s, decode_key u s)].
+Proof. exact key_after_history_b. Qed.
+Print Assumptions C09_key_after_history.
+
+(* The Esc key (a lone ESC byte followed by silence: the escape timer fires), from any clean state *)
+Theorem C09_esc_key_from_any_clean_state : forall p : pst, clean_b p = true ->
+  exists p1 p2, feed p [27] = (p1, [], true) /\ timer_fire p1 = (p2, [IC0 27]) /\ clean_b p2 = true.
+Proof. exact lone_esc_clean_b. Qed.
+Print Assumptions C09_esc_key_from_any_clean_state.
+
+(* Byte level, one parser instance from creation to the end of its input: the predicate the stream
+   check evaluates on the implementation (first clause of c09_stream_violations) holds of the model. *)
+Theorem C09_stream_predicate_holds : forall (u : uni) (rs : list report),
+  Forall (fun r => report_ok r = true) rs ->
+  Forall (fun r => forallb (fun b => in_range b 0 127) (report_wire r) = true) rs ->
+  stream_events u [flat_map report_wire rs] = flat_map (fun r => stream_events u [report_wire r]) rs.
+Proof. exact stream_bytes_independent_b. Qed.
+Print Assumptions C09_stream_predicate_holds.
+
+(* Every legacy and every kitty encoding of every both-expressible chord has a wire form (the Esc
+   key itself is the lone ESC byte of the theorem above). *)
+Theorem C09_chord_encodings_have_wire : chords_have_wire = true.
+Proof. exact chords_have_wire_true. Qed.
+Print Assumptions C09_chord_encodings_have_wire.
+
+(* The cross-encoding clause regardless of what was typed before: after any history of reports
+   through the same parser instance, the legacy bytes and the kitty bytes of a both-expressible chord
+   each add exactly one event, and the two keys have the same String() and match the same bindings. *)
+Theorem C09_cross_protocol_after_history : forall (u : uni), upper_hyp u -> ascii_like u ->
+  forall (hist : list report) (c : chord) (sl sk : kseq) (wl wk : list Z),
+  Forall (fun r => report_ok r = true) hist ->
+  In c both_expressible -> In sl (legacy_encs c) -> In sk (kitty_encs c) ->
+  guard_esc_upper c = false -> guard_shift_noalt c sk = false ->
+  kseq_wire sl = Some wl -> kseq_wire sk = Some wk ->
+  let h := flat_map report_wire hist in
+  exists kl kk,
+    run_events u pinit (h ++ wl) = run_events u pinit h ++ [(sl, kl)] /\
+    run_events u pinit (h ++ wk) = run_events u pinit h ++ [(sk, kk)] /\
+    key_string u kl = key_string u kk /\
+    forall r mods, r <> 0 -> matches u kl r mods = matches u kk r mods.
+Proof. exact cross_after_history. Qed.
+Print Assumptions C09_cross_protocol_after_history.
+
 (* ---------- binding strings ---------- *)
 
 (* The binding-string parser reads back what String() prints: for each of the 64 combinations of
@@ -216,4 +294,17 @@ Example C09_ex_string_scope :
   sm_scope (mkKey [] KeyUp 0 0 (16 + 4 + 128) 0) = true /\
   key_string ascii_uni (mkKey [] KeyUp 0 0 (16 + 4 + 128) 0) = [72; 121; 112; 101; 114; 43; 67; 116; 114; 108; 43; 85; 112] /\
   sm_scope (mkKey [58] 59 58 0 1 0) = true /\ sm_scope (mkKey [] KeyPrintScreen 0 0 0 0) = false.
+Proof. vm_compute. repeat split; reflexivity. Qed.
+(* a BEL-terminated OSC 11 reply, two keys, then Alt+\ in the legacy (ESC \) and the kitty (CSI 92;3u)
+   encoding, through one parser instance: all reports are in the domain, both chords arrive *)
+Example C09_ex_history :
+  let hist := [ROscBel [49; 49; 59; 114; 103; 98; 58; 48; 47; 48; 47; 48]; RPrint 97; RC0 24; RCsi [63] [54; 50; 59; 52] [] 99; ROscSt [49; 48; 59; 120]] in
+  forallb report_ok hist = true /\ clean_b pinit = true /\
+  kseq_wire (SESC [] 92) = Some [27; 92] /\ kseq_wire (SCSI [] [[92]; [3]] 117) = Some [27; 91; 57; 50; 59; 51; 117] /\
+  run_events ascii_uni pinit (flat_map report_wire hist ++ [27; 92] ++ [27; 91; 57; 50; 59; 51; 117]) =
+    [(SOther, key0); (SPrint [97], mkKey [97] 97 0 0 0 0); (SC0 24, mkKey [] 120 0 0 4 0);
+     (SCSI [63] [[62]; [4]] 99, mkKey [] 62 0 0 3 0); (SOther, key0);
+     (SESC [] 92, mkKey [] 92 0 0 2 0); (SCSI [] [[92]; [3]] 117, mkKey [] 92 0 0 2 0)] /\
+  stream_events ascii_uni [[27; 93; 49; 49; 7; 97]; [27]; [27; 92]] =
+    [(SOther, key0); (SPrint [97], mkKey [97] 97 0 0 0 0); (SC0 27, mkKey [] KeyEsc 0 0 0 0); (SESC [] 92, mkKey [] 92 0 0 2 0)].
 Proof. vm_compute. repeat split; reflexivity. Qed.
